@@ -9,27 +9,32 @@ import kanilib
 RTARGET = os.environ.get("SKA_REPLAY_TARGET", os.path.join(WORK, "replay-target"))
 
 
+CUR_PROP = "x"
+
+
 def build_mirror():
-    """build /verif/replay against a scratch copy of /repo's working tree; returns path of binary or None"""
+    """build /verif/replay against a scratch copy of /repo's working tree; returns path of binary or None.
+    One copy and one target directory per property, so that checks running side by side do not share artefacts."""
     crate = os.path.join(VERIF, "replay")
     if not os.path.exists(os.path.join(crate, "Cargo.toml")):
         return None, "no replay crate"
-    src = os.path.join(WORK, "replay-src")
+    src = os.path.join(WORK, "replay-src", CUR_PROP)
     os.makedirs(src, exist_ok=True)
     subprocess.run(["rsync", "-rlp", "--checksum", "--delete", "--exclude", "target", "--exclude", ".git", REPO + "/", src + "/ska/"], check=True)
     subprocess.run(["rsync", "-rlp", "--checksum", "--delete", "--exclude", "target", crate + "/", src + "/mirror/"], check=True)
     lock = os.path.join(REPO, "Cargo.lock")
-    env = dict(os.environ, CARGO_NET_OFFLINE="true", CARGO_TARGET_DIR=RTARGET)
+    rt = os.path.join(RTARGET, CUR_PROP)
+    env = dict(os.environ, CARGO_NET_OFFLINE="true", CARGO_TARGET_DIR=rt)
     p = subprocess.run(["cargo", "build", "--release", "--offline"], cwd=os.path.join(src, "mirror"), env=env, capture_output=True, text=True)
     if p.returncode != 0:
         return None, "mirror crate does not build against this tree: " + p.stderr[-500:]
-    return os.path.join(RTARGET, "release", "mirror"), ""
+    return os.path.join(rt, "release", "mirror"), ""
 
 
 def build_frag_mirror(name, unit, main_rs):
     """native build of a fragment lifted by vx (plain unit) plus a sweep driver kept in /verif/replay_frag"""
     from vlib import gen_unit
-    d = os.path.join(WORK, "fragmirror", name)
+    d = os.path.join(WORK, "fragmirror", CUR_PROP, name)
     os.makedirs(os.path.join(d, "src"), exist_ok=True)
     gen = gen_unit(unit, None, outdir=os.path.join(WORK, "gen", "fragmirror"), vac=False)
     if gen["rc"] != 0:
@@ -68,6 +73,8 @@ def mirror_targets(prop, failing):
 
 
 def search(prop, failing, kres, tier):
+    global CUR_PROP
+    CUR_PROP = prop
     out = {"input": None, "sweeps": []}
     # Kani counterexamples
     for f in failing:
@@ -119,6 +126,8 @@ MIRRORS_OF = {"C01": ["kmer"], "C02": ["kmer"], "C12": ["kmer"], "C16": ["kmer"]
 
 def sweep_all(prop, cfg):
     """thorough tier: run every mirror sweep that belongs to the property"""
+    global CUR_PROP
+    CUR_PROP = prop
     out = {"input": None, "sweeps": []}
     targets = MIRRORS_OF.get(prop, [])
     if not targets:
@@ -151,6 +160,8 @@ def sweep_all(prop, cfg):
 
 def run_replay_file(prop, path):
     """re-run exactly the input recorded in a replay file against the current tree; exit 1 if it still fails"""
+    global CUR_PROP
+    CUR_PROP = prop
     try:
         rp = json.load(open(path))
     except Exception as e:
